@@ -54,6 +54,23 @@ func (e events) emit(ev, t string, id int, ws []string, n, g int, ls []int, run 
 }
 func (e events) simple(ev, t string, id int) { e.emit(ev, t, id, nil, 0, 0, nil, nil) }
 
+// guard runs one call into the real code; a panic there is recorded as an observation ("panic") and stops
+// further generation (the queue's mutexes may be left locked, so the history is not finalized).
+var panicked atomic.Bool
+
+func guard(ev events, t string, f func()) (ok bool) {
+	defer func() {
+		if r := recover(); r != nil {
+			panicked.Store(true)
+			deadlineHits.Store(maxDeadlineHits)
+			ev.emit("panic", t, 0, nil, 0, 0, nil, []string{fmt.Sprint(r)})
+			ok = false
+		}
+	}()
+	f()
+	return true
+}
+
 // quiescence deadline: operations take microseconds; the deadline is only reached when something is
 // really stuck (it then becomes a monitor finding, so it is deliberately generous)
 var quiesceDeadline = 10 * time.Second
@@ -111,7 +128,10 @@ func (t *tracker) set(m map[string]bool, k string, v bool) { t.mu.Lock(); m[k] =
 // finalize: wait for quiescence, record it, close if needed, join, drain. threads = every logical thread
 // name; workers = names of worker threads.
 func finalize(q *actor.VerifReadyQueue, ev events, tr *tracker, threads []string, nworkers int, closeCalled func() bool,
-	doClose func(), waitExit func(d time.Duration) []string) {
+	doClose func(), waitExit func(d time.Duration) []string, tick func()) {
+	if panicked.Load() {
+		return
+	}
 	deadline := time.Now().Add(quiesceDeadline)
 	var blocked, running []string
 	parked, g := -1, -1
@@ -158,6 +178,9 @@ func finalize(q *actor.VerifReadyQueue, ev events, tr *tracker, threads []string
 			deadlineHits.Add(1)
 			break
 		}
+		if tick != nil {
+			tick()
+		}
 		time.Sleep(100 * time.Microsecond)
 	}
 	sort.Strings(blocked)
@@ -165,7 +188,9 @@ func finalize(q *actor.VerifReadyQueue, ev events, tr *tracker, threads []string
 	ev.emit("quiesce", "", 0, blocked, parked, g, ls, running)
 	if !closeCalled() {
 		ev.simple("close", "h", 0)
-		doClose()
+		if !guard(ev, "h", doClose) {
+			return
+		}
 	}
 	notExited := waitExit(quiesceDeadline)
 	sort.Strings(notExited)
@@ -174,7 +199,11 @@ func finalize(q *actor.VerifReadyQueue, ev events, tr *tracker, threads []string
 		// drain what is left through the real take (never blocks: the queue is closed)
 		for i := 0; i < nworkers; i++ {
 			for {
-				it, ok := q.Take(i)
+				var it *actor.VerifItem
+				var ok bool
+				if !guard(ev, "h", func() { it, ok = q.Take(i) }) {
+					return
+				}
 				if !ok || it == nil {
 					break
 				}
@@ -238,7 +267,11 @@ func replay(nworkers int, behaviours [][]step, ev events, stepw *vtrace.Writer, 
 					switch op {
 					case "take":
 						tr.set(tr.inTake, t, true)
-						it, ok := q.Take(idx)
+						var it *actor.VerifItem
+						var ok bool
+						if !guard(ev, t, func() { it, ok = q.Take(idx) }) {
+							return
+						}
 						tr.set(tr.inTake, t, false)
 						if !ok {
 							ev.simple("exit", t, 0)
@@ -254,16 +287,22 @@ func replay(nworkers int, behaviours [][]step, ev events, stepw *vtrace.Writer, 
 						k++
 						id := 100 + idx*10 + k
 						ev.simple("issue", t, id)
-						q.PushLocal(idx, &actor.VerifItem{ID: id})
+						if !guard(ev, t, func() { q.PushLocal(idx, &actor.VerifItem{ID: id}) }) {
+							return
+						}
 					case "push":
 						k++
 						id := idx*10 + k
 						ev.simple("issue", t, id)
-						q.Push(&actor.VerifItem{ID: id})
+						if !guard(ev, t, func() { q.Push(&actor.VerifItem{ID: id}) }) {
+							return
+						}
 					case "close":
 						closeCalled.Store(true)
 						ev.simple("close", t, 0)
-						q.Close()
+						if !guard(ev, t, q.Close) {
+							return
+						}
 					}
 				}
 			}); err != nil {
@@ -424,8 +463,23 @@ func replay(nworkers int, behaviours [][]step, ev events, stepw *vtrace.Writer, 
 			stepw.Raw(map[string]any{"a": "Drift"})
 		}
 		s.FreeRun()
+		// a released thread that reached a gate just before the gates opened is parked unobserved: let it go
+		unstick := func() {
+			for w := range released {
+				if p, ok := s.TryAwait(w, time.Microsecond); ok {
+					if p.Done {
+						delete(released, w)
+					} else {
+						_ = s.Release(w)
+					}
+				}
+			}
+		}
 		finalize(q, ev, tr, order, nworkers, closeCalled.Load, q.Close, func(d time.Duration) []string {
-			s.Join(d)
+			dl := time.Now().Add(d)
+			for !s.Join(5*time.Millisecond) && time.Now().Before(dl) {
+				unstick()
+			}
 			var ne []string
 			tr.mu.Lock()
 			for _, t := range order {
@@ -435,7 +489,7 @@ func replay(nworkers int, behaviours [][]step, ev events, stepw *vtrace.Writer, 
 			}
 			tr.mu.Unlock()
 			return ne
-		})
+		}, unstick)
 		s.Close()
 		st.Behaviours++
 	}
@@ -481,7 +535,11 @@ func stressRQ(nworkers int, rng *rand.Rand, ev events) {
 			takes := 0
 			for {
 				tr.set(tr.inTake, t, true)
-				it, ok := q.Take(i)
+				var it *actor.VerifItem
+				var ok bool
+				if !guard(ev, t, func() { it, ok = q.Take(i) }) {
+					return
+				}
 				tr.set(tr.inTake, t, false)
 				if !ok {
 					ev.simple("exit", t, 0)
@@ -501,7 +559,9 @@ func stressRQ(nworkers int, rng *rand.Rand, ev events) {
 					for k := 0; k < sc.burst; k++ {
 						id := int(nextID.Add(1))
 						ev.simple("issue", t, id)
-						q.PushLocal(i, &actor.VerifItem{ID: id})
+						if !guard(ev, t, func() { q.PushLocal(i, &actor.VerifItem{ID: id}) }) {
+							return
+						}
 					}
 				}
 			}
@@ -521,7 +581,9 @@ func stressRQ(nworkers int, rng *rand.Rand, ev events) {
 			for k := 0; k < n; k++ {
 				id := int(nextID.Add(1))
 				ev.simple("issue", t, id)
-				q.Push(&actor.VerifItem{ID: id})
+				if !guard(ev, t, func() { q.Push(&actor.VerifItem{ID: id}) }) {
+					return
+				}
 				if pause == 1 {
 					runtime.Gosched()
 				} else if pause == 2 && k%16 == 0 {
@@ -539,7 +601,7 @@ func stressRQ(nworkers int, rng *rand.Rand, ev events) {
 			time.Sleep(d)
 			closeCalled.Store(true)
 			ev.simple("close", "c", 0)
-			q.Close()
+			guard(ev, "c", q.Close)
 		}()
 	}
 	pwg.Wait()
@@ -559,7 +621,7 @@ func stressRQ(nworkers int, rng *rand.Rand, ev events) {
 		}
 		tr.mu.Unlock()
 		return ne
-	})
+	}, nil)
 }
 
 // exitObserver records "worker.exit" hook hits of a real dispatcher.
@@ -632,7 +694,9 @@ func stressDisp(nworkers int, rng *rand.Rand, ev events) {
 					id++
 				}
 				ev.simple("issue", t, id)
-				d.Schedule(&actor.VerifItem{ID: id, OnTurn: onTurn})
+				if !guard(ev, t, func() { d.Schedule(&actor.VerifItem{ID: id, OnTurn: onTurn}) }) {
+					return
+				}
 				if k%8 == 0 {
 					runtime.Gosched()
 				}
@@ -671,7 +735,7 @@ func stressDisp(nworkers int, rng *rand.Rand, ev events) {
 		}
 		xo.mu.Unlock()
 		return ne
-	})
+	}, nil)
 }
 
 // ---------------------------------------------------------------- sequential macro operations
@@ -728,11 +792,19 @@ func seqReplay(nworkers int, behaviours [][]seqOp, ev events, opw *vtrace.Writer
 					next++
 					ids = append(ids, id)
 					ev.simple("issue", "h", id)
-					if o.Op == "push" {
-						q.Push(&actor.VerifItem{ID: id})
-					} else {
-						q.PushLocal(o.W, &actor.VerifItem{ID: id})
+					if !guard(ev, "h", func() {
+						if o.Op == "push" {
+							q.Push(&actor.VerifItem{ID: id})
+						} else {
+							q.PushLocal(o.W, &actor.VerifItem{ID: id})
+						}
+					}) {
+						stuck = true
+						break
 					}
+				}
+				if stuck {
+					break
 				}
 				gAfter, _, _, _ := q.TryLens()
 				if o.Op == "lpush" && gAfter > gBefore {
@@ -762,12 +834,19 @@ func seqReplay(nworkers int, behaviours [][]seqOp, ev events, opw *vtrace.Writer
 						ok bool
 					}
 					ch := make(chan res, 1)
-					go func() { it, ok := q.Take(o.W); ch <- res{it, ok} }()
+					go func() {
+						var r res
+						guard(ev, wname(o.W), func() { r.it, r.ok = q.Take(o.W) })
+						ch <- r
+					}()
 					var it *actor.VerifItem
 					var ok bool
 					select {
 					case r := <-ch:
 						it, ok = r.it, r.ok
+						if panicked.Load() {
+							stuck = true
+						}
 					case <-time.After(quiesceDeadline):
 						deadlineHits.Add(1)
 						g2, ls2, pk2, _ := q.TryLens()
@@ -800,11 +879,14 @@ func seqReplay(nworkers int, behaviours [][]seqOp, ev events, opw *vtrace.Writer
 			case "close":
 				closed = true
 				ev.simple("close", "h", 0)
-				q.Close()
+				if !guard(ev, "h", q.Close) {
+					stuck = true
+					break
+				}
 				line("close", 0, 0, nil, false)
 			}
 		}
-		finalize(q, ev, tr, nil, nworkers, func() bool { return closed }, q.Close, func(time.Duration) []string { return nil })
+		finalize(q, ev, tr, nil, nworkers, func() bool { return closed }, q.Close, func(time.Duration) []string { return nil }, nil)
 		st.Behaviours++
 	}
 	ev.w.Raw(map[string]any{"ev": "End", "t": "", "id": 0, "ws": []string{}, "n": 0, "g": 0, "ls": []int{}, "run": []string{}})
